@@ -294,6 +294,10 @@ class Tensor:
     def cpu(self):
         return self
 
+    def data_ptr(self):
+        # address of the first element: equal for a tensor and its aliases / views that start at the same element
+        return int(self.a.__array_interface__["data"][0])
+
     def contiguous(self):
         # torch returns self for a contiguous tensor and a fresh copy otherwise (e.g. after t() / transpose)
         if self.a.flags["C_CONTIGUOUS"]:
